@@ -1,0 +1,513 @@
+// verif.rs - verification hooks (compiled only with --cfg simple_irc_server_verif)
+//
+// simple-irc-server - simple IRC server
+//
+// This module is dead code unless a model-checking harness activates it on the
+// current thread (see `activate`). It lets a harness:
+//  * run the real, private `user_state_process` over an in-memory stream,
+//  * decide which `select!` branch of `MainState::process_internal` fires next
+//    (the "gate"), without rewriting the `select!`,
+//  * replace the blocking-thread password check by a scheduler-visible yield,
+//  * take a plain, sorted snapshot of the whole volatile state.
+
+use super::*;
+use std::cell::RefCell;
+use futures::FutureExt;
+use std::collections::HashMap as StdHashMap;
+use std::collections::HashSet;
+use std::future::Future;
+use std::net::{IpAddr, SocketAddr};
+use std::sync::Mutex;
+use tokio::io::DuplexStream;
+use tokio::sync::mpsc::{unbounded_channel, UnboundedReceiver, UnboundedSender};
+
+#[derive(Clone, Copy, Debug, PartialEq, Eq, Hash, PartialOrd, Ord)]
+pub(crate) enum Directive {
+    Socket,
+    Queue,
+    Ping,
+    Timeout,
+    Kill,
+}
+
+#[derive(Clone, Debug, Default, PartialEq, Eq, Hash, PartialOrd, Ord)]
+pub(crate) struct ConnInfo {
+    pub(crate) nick: Option<String>,
+    pub(crate) name: Option<String>,
+    pub(crate) realname: Option<String>,
+    pub(crate) source: String,
+    pub(crate) hostname: String,
+    pub(crate) password: Option<String>,
+    pub(crate) authenticated: bool,
+    pub(crate) registered: bool,
+    pub(crate) caps_negotation: bool,
+    pub(crate) multi_prefix: bool,
+    pub(crate) quit: bool,
+    pub(crate) queue_len: usize,
+    pub(crate) ping_len: usize,
+    pub(crate) timeout_len: usize,
+    pub(crate) has_sender: bool,
+    pub(crate) has_quit_sender: bool,
+    pub(crate) has_ping_sender: bool,
+    pub(crate) pong_pending: bool,
+}
+
+#[derive(Default)]
+struct Ctl {
+    active: bool,
+    cur: usize,
+    directive: Vec<Option<Directive>>,
+    at_gate: Vec<bool>,
+    info: Vec<Option<ConnInfo>>,
+    // number of process_internal calls completed per slot and directive kind
+    consumed: Vec<[u64; 5]>,
+    // number of password checks that went through the hook
+    pw_checks: u64,
+}
+
+thread_local! {
+    static CTL: RefCell<Ctl> = RefCell::new(Ctl::default());
+}
+
+lazy_static::lazy_static! {
+    static ref PW_MEMO: Mutex<StdHashMap<(String, String), bool>> = Mutex::new(StdHashMap::new());
+}
+
+/// Activate the hooks on this thread for `slots` connections.
+pub(crate) fn activate(slots: usize) {
+    CTL.with(|c| {
+        let mut c = c.borrow_mut();
+        c.active = true;
+        c.cur = 0;
+        c.directive = vec![None; slots];
+        c.at_gate = vec![false; slots];
+        c.info = vec![None; slots];
+        c.consumed = vec![[0; 5]; slots];
+        c.pw_checks = 0;
+    });
+}
+
+pub(crate) fn deactivate() {
+    CTL.with(|c| {
+        *c.borrow_mut() = Ctl::default();
+    });
+}
+
+pub(crate) fn is_active() -> bool {
+    CTL.with(|c| c.borrow().active)
+}
+
+/// Tell the hooks which connection slot is about to be polled.
+pub(crate) fn set_current(slot: usize) {
+    CTL.with(|c| c.borrow_mut().cur = slot);
+}
+
+/// Give connection `slot` one directive; it is consumed by its next gate pass.
+pub(crate) fn direct(slot: usize, d: Directive) {
+    CTL.with(|c| c.borrow_mut().directive[slot] = Some(d));
+}
+
+pub(crate) fn pending_directive(slot: usize) -> Option<Directive> {
+    CTL.with(|c| c.borrow().directive[slot])
+}
+
+pub(crate) fn at_gate(slot: usize) -> bool {
+    CTL.with(|c| c.borrow().at_gate[slot])
+}
+
+pub(crate) fn conn_info(slot: usize) -> Option<ConnInfo> {
+    CTL.with(|c| c.borrow().info[slot].clone())
+}
+
+pub(crate) fn consumed(slot: usize) -> [u64; 5] {
+    CTL.with(|c| c.borrow().consumed[slot])
+}
+
+pub(crate) fn pw_checks() -> u64 {
+    CTL.with(|c| c.borrow().pw_checks)
+}
+
+fn make_info(cs: &ConnState) -> ConnInfo {
+    ConnInfo {
+        nick: cs.user_state.nick.clone(),
+        name: cs.user_state.name.clone(),
+        realname: cs.user_state.realname.clone(),
+        source: cs.user_state.source.clone(),
+        hostname: cs.user_state.hostname.clone(),
+        password: cs.user_state.password.clone(),
+        authenticated: cs.user_state.authenticated,
+        registered: cs.user_state.registered,
+        caps_negotation: cs.caps_negotation,
+        multi_prefix: cs.caps.multi_prefix,
+        quit: cs.is_quit(),
+        queue_len: cs.receiver.len(),
+        ping_len: cs.ping_receiver.len(),
+        timeout_len: cs.timeout_receiver.len(),
+        has_sender: cs.sender.is_some(),
+        has_quit_sender: cs.quit_sender.is_some(),
+        has_ping_sender: cs.ping_sender.is_some(),
+        pong_pending: cs.pong_notifier.is_some(),
+    }
+}
+
+/// What `gate` took out of the connection; `ungate` puts it back.
+pub(crate) struct Guard {
+    slot: usize,
+    directive: Option<Directive>,
+    receiver: Option<UnboundedReceiver<String>>,
+    ping_receiver: Option<UnboundedReceiver<()>>,
+    timeout_receiver: Option<UnboundedReceiver<()>>,
+    quit_receiver: Option<Fuse<oneshot::Receiver<(String, String)>>>,
+    dns_lookup_receiver: Option<Fuse<oneshot::Receiver<Option<String>>>>,
+    // keep the senders of the dummies alive so that the dummies stay pending
+    _keep_s: Option<UnboundedSender<String>>,
+    _keep_u: Vec<UnboundedSender<()>>,
+    _keep_q: Option<oneshot::Sender<(String, String)>>,
+    _keep_d: Option<oneshot::Sender<Option<String>>>,
+}
+
+/// Park until the harness issues a directive for this connection, then leave
+/// exactly one event source of the following `process_internal` call enabled.
+pub(crate) async fn gate(cs: &mut ConnState) -> Option<Guard> {
+    if !is_active() {
+        return None;
+    }
+    let (slot, d) = std::future::poll_fn(|_cx| {
+        CTL.with(|c| {
+            let mut c = c.borrow_mut();
+            let slot = c.cur;
+            c.info[slot] = Some(make_info(cs));
+            if let Some(d) = c.directive[slot].take() {
+                c.at_gate[slot] = false;
+                std::task::Poll::Ready((slot, d))
+            } else {
+                c.at_gate[slot] = true;
+                std::task::Poll::Pending
+            }
+        })
+    })
+    .await;
+
+    let mut g = Guard {
+        slot,
+        directive: Some(d),
+        receiver: None,
+        ping_receiver: None,
+        timeout_receiver: None,
+        quit_receiver: None,
+        dns_lookup_receiver: None,
+        _keep_s: None,
+        _keep_u: vec![],
+        _keep_q: None,
+        _keep_d: None,
+    };
+    if d != Directive::Queue {
+        let (tx, rx) = unbounded_channel();
+        g.receiver = Some(std::mem::replace(&mut cs.receiver, rx));
+        g._keep_s = Some(tx);
+    }
+    if d != Directive::Ping {
+        let (tx, rx) = unbounded_channel();
+        g.ping_receiver = Some(std::mem::replace(&mut cs.ping_receiver, rx));
+        g._keep_u.push(tx);
+    }
+    if d != Directive::Timeout {
+        let (tx, rx) = unbounded_channel();
+        g.timeout_receiver = Some(std::mem::replace(&mut cs.timeout_receiver, rx));
+        g._keep_u.push(tx);
+    }
+    if d != Directive::Kill {
+        let (tx, rx) = oneshot::channel();
+        g.quit_receiver = Some(std::mem::replace(&mut cs.quit_receiver, rx.fuse()));
+        g._keep_q = Some(tx);
+    }
+    {
+        // the DNS answer source is dead in this build (sender dropped at
+        // construction); un-masked it would fire once at a random poll.
+        let (tx, rx) = oneshot::channel();
+        g.dns_lookup_receiver = Some(std::mem::replace(&mut cs.dns_lookup_receiver, rx.fuse()));
+        g._keep_d = Some(tx);
+    }
+    Some(g)
+}
+
+pub(crate) fn ungate(cs: &mut ConnState, g: Option<Guard>) {
+    if let Some(mut g) = g {
+        if let Some(r) = g.receiver.take() {
+            cs.receiver = r;
+        }
+        if let Some(r) = g.ping_receiver.take() {
+            cs.ping_receiver = r;
+        }
+        if let Some(r) = g.timeout_receiver.take() {
+            cs.timeout_receiver = r;
+        }
+        if let Some(r) = g.quit_receiver.take() {
+            cs.quit_receiver = r;
+        }
+        if let Some(r) = g.dns_lookup_receiver.take() {
+            cs.dns_lookup_receiver = r;
+        }
+        CTL.with(|c| {
+            let mut c = c.borrow_mut();
+            if c.active && g.slot < c.consumed.len() {
+                if let Some(d) = g.directive {
+                    c.consumed[g.slot][d as usize] += 1;
+                }
+                c.info[g.slot] = Some(make_info(cs));
+            }
+        });
+    }
+}
+
+/// Scheduler-visible replacement of the blocking-thread password check:
+/// yield once, then run the real synchronous verification (memoised).
+pub(crate) async fn password_hook(password: &str, hash_str: &str) -> Option<bool> {
+    if !is_active() {
+        return None;
+    }
+    CTL.with(|c| c.borrow_mut().pw_checks += 1);
+    tokio::task::yield_now().await;
+    let key = (password.to_string(), hash_str.to_string());
+    if let Some(r) = PW_MEMO.lock().unwrap().get(&key) {
+        return Some(*r);
+    }
+    let r = crate::utils::argon2_verify_password(password, hash_str).is_ok();
+    PW_MEMO.lock().unwrap().insert(key, r);
+    Some(r)
+}
+
+/// Run the real connection task body over an in-memory stream.
+pub(crate) fn run_conn(
+    main_state: Arc<MainState>,
+    stream: DuplexStream,
+    ip: IpAddr,
+) -> impl Future<Output = ()> {
+    super::user_state_process(
+        main_state,
+        DualTcpStream::MemStream(stream),
+        SocketAddr::new(ip, 50000),
+    )
+}
+
+// ---------------------------------------------------------------------------
+// plain snapshot of the volatile state
+
+#[derive(Clone, Debug, Default, PartialEq, Eq, Hash, PartialOrd, Ord)]
+pub(crate) struct SnapHist {
+    pub(crate) username: String,
+    pub(crate) hostname: String,
+    pub(crate) realname: String,
+    pub(crate) signon: u64,
+}
+
+#[derive(Clone, Debug, Default, PartialEq, Eq, Hash, PartialOrd, Ord)]
+pub(crate) struct SnapUser {
+    pub(crate) nick: String,
+    pub(crate) hostname: String,
+    pub(crate) name: String,
+    pub(crate) realname: String,
+    pub(crate) source: String,
+    pub(crate) invisible: bool,
+    pub(crate) oper: bool,
+    pub(crate) local_oper: bool,
+    pub(crate) registered: bool,
+    pub(crate) wallops: bool,
+    pub(crate) away: Option<String>,
+    pub(crate) channels: Vec<String>,
+    pub(crate) invited_to: Vec<String>,
+    pub(crate) has_quit_sender: bool,
+    pub(crate) sender_closed: bool,
+    pub(crate) last_activity: u64,
+    pub(crate) signon: u64,
+    pub(crate) history_entry: SnapHist,
+}
+
+#[derive(Clone, Debug, Default, PartialEq, Eq, Hash, PartialOrd, Ord)]
+pub(crate) struct SnapMember {
+    pub(crate) nick: String,
+    pub(crate) founder: bool,
+    pub(crate) protected: bool,
+    pub(crate) operator: bool,
+    pub(crate) half_oper: bool,
+    pub(crate) voice: bool,
+}
+
+#[derive(Clone, Debug, Default, PartialEq, Eq, Hash, PartialOrd, Ord)]
+pub(crate) struct SnapChannel {
+    pub(crate) name: String,
+    pub(crate) topic: Option<(String, String, u64)>,
+    pub(crate) ban: Vec<String>,
+    pub(crate) exception: Vec<String>,
+    pub(crate) invite_exception: Vec<String>,
+    pub(crate) client_limit: Option<usize>,
+    pub(crate) key: Option<String>,
+    pub(crate) operators: Vec<String>,
+    pub(crate) half_operators: Vec<String>,
+    pub(crate) voices: Vec<String>,
+    pub(crate) founders: Vec<String>,
+    pub(crate) protecteds: Vec<String>,
+    pub(crate) invite_only: bool,
+    pub(crate) moderated: bool,
+    pub(crate) secret: bool,
+    pub(crate) protected_topic: bool,
+    pub(crate) no_external_messages: bool,
+    pub(crate) def_operators: Vec<String>,
+    pub(crate) def_half_operators: Vec<String>,
+    pub(crate) def_voices: Vec<String>,
+    pub(crate) def_founders: Vec<String>,
+    pub(crate) def_protecteds: Vec<String>,
+    pub(crate) ban_info: Vec<(String, String, u64)>,
+    pub(crate) users: Vec<SnapMember>,
+    pub(crate) creation_time: u64,
+    pub(crate) preconfigured: bool,
+}
+
+#[derive(Clone, Debug, Default, PartialEq, Eq, Hash, PartialOrd, Ord)]
+pub(crate) struct Snapshot {
+    pub(crate) users: Vec<SnapUser>,
+    pub(crate) channels: Vec<SnapChannel>,
+    pub(crate) wallops_users: Vec<String>,
+    pub(crate) invisible_users_count: usize,
+    pub(crate) operators_count: usize,
+    pub(crate) max_users_count: usize,
+    pub(crate) nick_histories: Vec<(String, Vec<SnapHist>)>,
+    pub(crate) has_quit_sender: bool,
+    pub(crate) conns_count: usize,
+}
+
+fn sorted<'a, I: Iterator<Item = &'a String>>(it: I) -> Vec<String> {
+    let mut v: Vec<String> = it.cloned().collect();
+    v.sort();
+    v
+}
+
+fn sorted_opt(s: &Option<HashSet<String>>) -> Vec<String> {
+    match s {
+        Some(s) => sorted(s.iter()),
+        None => vec![],
+    }
+}
+
+fn snap_hist(h: &NickHistoryEntry) -> SnapHist {
+    SnapHist {
+        username: h.username.clone(),
+        hostname: h.hostname.clone(),
+        realname: h.realname.clone(),
+        signon: h.signon,
+    }
+}
+
+/// Snapshot of everything in `VolatileState` plus the connection counter.
+/// Returns None if the state lock is write-held (a handler is in progress).
+pub(crate) fn snapshot(main_state: &MainState) -> Option<Snapshot> {
+    let st = main_state.state.try_read().ok()?;
+    let mut users: Vec<SnapUser> = st
+        .users
+        .iter()
+        .map(|(nick, u)| SnapUser {
+            nick: nick.clone(),
+            hostname: u.hostname.clone(),
+            name: u.name.clone(),
+            realname: u.realname.clone(),
+            source: u.source.clone(),
+            invisible: u.modes.invisible,
+            oper: u.modes.oper,
+            local_oper: u.modes.local_oper,
+            registered: u.modes.registered,
+            wallops: u.modes.wallops,
+            away: u.away.clone(),
+            channels: sorted(u.channels.iter()),
+            invited_to: sorted(u.invited_to.iter()),
+            has_quit_sender: u.quit_sender.is_some(),
+            sender_closed: u.sender.is_closed(),
+            last_activity: u.last_activity,
+            signon: u.signon,
+            history_entry: snap_hist(&u.history_entry),
+        })
+        .collect();
+    users.sort();
+    let mut channels: Vec<SnapChannel> = st
+        .channels
+        .iter()
+        .map(|(name, ch)| {
+            let mut members: Vec<SnapMember> = ch
+                .users
+                .iter()
+                .map(|(n, m)| SnapMember {
+                    nick: n.clone(),
+                    founder: m.founder,
+                    protected: m.protected,
+                    operator: m.operator,
+                    half_oper: m.half_oper,
+                    voice: m.voice,
+                })
+                .collect();
+            members.sort();
+            let mut ban_info: Vec<(String, String, u64)> = ch
+                .ban_info
+                .iter()
+                .map(|(m, b)| (m.clone(), b.who.clone(), b.set_time))
+                .collect();
+            ban_info.sort();
+            SnapChannel {
+                name: name.clone(),
+                topic: ch
+                    .topic
+                    .as_ref()
+                    .map(|t| (t.topic.clone(), t.nick.clone(), t.set_time)),
+                ban: sorted_opt(&ch.modes.ban),
+                exception: sorted_opt(&ch.modes.exception),
+                invite_exception: sorted_opt(&ch.modes.invite_exception),
+                client_limit: ch.modes.client_limit,
+                key: ch.modes.key.clone(),
+                operators: sorted_opt(&ch.modes.operators),
+                half_operators: sorted_opt(&ch.modes.half_operators),
+                voices: sorted_opt(&ch.modes.voices),
+                founders: sorted_opt(&ch.modes.founders),
+                protecteds: sorted_opt(&ch.modes.protecteds),
+                invite_only: ch.modes.invite_only,
+                moderated: ch.modes.moderated,
+                secret: ch.modes.secret,
+                protected_topic: ch.modes.protected_topic,
+                no_external_messages: ch.modes.no_external_messages,
+                def_operators: sorted(ch.default_modes.operators.iter()),
+                def_half_operators: sorted(ch.default_modes.half_operators.iter()),
+                def_voices: sorted(ch.default_modes.voices.iter()),
+                def_founders: sorted(ch.default_modes.founders.iter()),
+                def_protecteds: sorted(ch.default_modes.protecteds.iter()),
+                ban_info,
+                users: members,
+                creation_time: ch.creation_time,
+                preconfigured: ch.preconfigured,
+            }
+        })
+        .collect();
+    channels.sort();
+    let mut nick_histories: Vec<(String, Vec<SnapHist>)> = st
+        .nick_histories
+        .iter()
+        .map(|(n, h)| (n.clone(), h.iter().map(snap_hist).collect()))
+        .collect();
+    nick_histories.sort();
+    Some(Snapshot {
+        users,
+        channels,
+        wallops_users: sorted(st.wallops_users.iter()),
+        invisible_users_count: st.invisible_users_count,
+        operators_count: st.operators_count,
+        max_users_count: st.max_users_count,
+        nick_histories,
+        has_quit_sender: st.quit_sender.is_some(),
+        conns_count: main_state.conns_count.load(Ordering::SeqCst),
+    })
+}
+
+/// Command counters (STATS m), for completeness of observation.
+pub(crate) fn command_counts(main_state: &MainState) -> Vec<u64> {
+    main_state
+        .command_counts
+        .iter()
+        .map(|c| c.load(Ordering::SeqCst))
+        .collect()
+}
